@@ -42,6 +42,26 @@ def case_expanding_code_points():
     return [chr(i) for i in range(sys.maxunicode + 1) if not (0xD800 <= i <= 0xDFFF) and len(chr(i).lower()) != 1]
 
 
+def normaliser_alphabet():
+    """Exhaustive over all 1.1M code points: what the library's own query normalisation does to each single code point
+    (both case modes).  Returns (code points it rewrites to something that is not their plain lower-case, code points
+    whose image does not have length 1).  The first list joins the token pool - the closed alphabet the normaliser
+    distinguishes is discovered from the code, not guessed; the second list must be empty (C01)."""
+    from recognizers_text.utilities import QueryProcessor
+    touched, bad = [], []
+    for i in range(sys.maxunicode + 1):
+        if 0xD800 <= i <= 0xDFFF:
+            continue
+        c = chr(i)
+        for cs in (False, True):
+            out = QueryProcessor.preprocess(c, cs)
+            if len(out) != 1:
+                bad.append((c, cs, out))
+            elif out != c and out != c.lower() and c not in touched:
+                touched.append(c)
+    return touched, bad
+
+
 def configure(tier, seed):
     CFG.update(tier=tier, seed=seed, k3_pool=10 if tier == 'quick' else 24, pool_size=16 if tier == 'quick' else 40,
                n_entities=14 if tier == 'quick' else 24, n_triple=6 if tier == 'quick' else 10,
@@ -81,7 +101,11 @@ def worker_init():
             if isinstance(t, str) and 2 <= len(t) <= 24:
                 ent_texts[cul][t.lower()] += 1
     S['inputs'] = {c: sorted(v.items()) for c, v in inputs.items()}
-    specials = ['１２', '３．５', '％', '，', '（', 'Ｋ'] + case_expanding_code_points() + ['ß', 'ẞ', 'é', '-', ',', '.', '/', ':']
+    touched, bad = normaliser_alphabet()
+    S['normaliser_bad'] = bad
+    S['normaliser_touched'] = touched
+    extra = [c for c in touched if c not in FULLWIDTH]          # rewritten code points this driver's table does not know
+    specials = ['１２', '３．５', '％', '，', '（', 'Ｋ'] + case_expanding_code_points() + [c + '5' for c in extra[:8]] + ['ß', 'ẞ', 'é', '-', ',', '.', '/', ':']
     S['specials'] = specials
     S['pool'], S['entities'] = {}, {}
     for cul in S['cultures']:
@@ -120,7 +144,9 @@ def calls(cul, q, ref):
 def build(ch):
     """-> (source label, culture, query, reference)"""
     S.pop('only', None)
-    part = ch.pick('part', ('specs', 'tokens-k2', 'tokens-k3', 'entity-pairs', 'entity-triples', 'modifier-stacks'))
+    part = ch.pick('part', ('specs', 'tokens-k2', 'tokens-k3', 'entity-pairs', 'entity-triples', 'modifier-stacks', 'normaliser'))
+    if part == 'normaliser':
+        return part, None, None, None
     cul = ch.pick('culture', S['cultures'])
     if part == 'specs':
         items = S['inputs'].get(cul, [])
